@@ -27,6 +27,7 @@ RULE = (
     "; every sixth case also registers 1-3 retarget_symbol_uses requests (chains included) and is repeated with them registered in another order"
     "; the command-line driver (_driver_core) is run on saved modules with 2-5 --run passes that all insert at the entry of every function"
     "; two symbols of one name on different blocks with a patch that names it"
+    "; a used symbol asked to be deleted twice with different force flags, in both orders; an aligned block that is not first in its byte interval receiving a patch with an alignment directive"
     "; patches use the scratch registers they are given (so the allocation shows in the bytes); rewrites whose patches have prologues are repeated inside one worker process and must give the same module again"
 )
 ASSUMPTIONS = [
@@ -52,9 +53,32 @@ def run_workers(reqs, n):
     return outs
 
 
+def deleted_twice(rng):
+    """a symbol that is still used is asked to be deleted twice, once forced and once not (two passes that disagree):
+    'not forced wins' whichever request comes first"""
+    text = [{"kind": "code", "func": 0, "entry": True, "insns": [["lea", "victim", 0], ["nop"], ["ret"]], "syms": [{"name": "main", "at_end": False}]},
+            {"kind": "code", "func": 1, "entry": True, "insns": [["nop"], ["ret"]], "syms": [{"name": "victim", "at_end": False}, {"name": "keeper", "at_end": False}]}]
+    dels = [["victim", True], ["victim", False]]
+    rng.shuffle(dels)
+    edits = [{"op": "insert", "block": 0, "off": 0, "asm": "nop"}] if rng.random() < 0.5 else []
+    return {"isa": "X64", "ff": "ELF", "text": text, "externs": ["ext_a"], "edits": edits, "symbol_deletions": dels}
+
+
+def two_aligned(rng):
+    """an aligned block that is not the first of its byte interval receives a patch that asks for an alignment of its own:
+    two aligned blocks in one re-joined interval; which of them the padding serves may not depend on set order"""
+    n0 = rng.randint(1, 5)
+    text = [{"kind": "code", "func": 0, "entry": True, "insns": [["nop"]] * n0, "syms": [{"name": "main", "at_end": False}]},
+            {"kind": "code", "func": 0, "insns": [["nop"]] * rng.randint(2, 4) + [["ret"]], "syms": [{"name": "second", "at_end": False}], "align": rng.choice([4, 8])}]
+    edits = [{"op": "insert", "block": 1, "off": rng.randint(1, 2), "asm": "nop\n.p2align 4\nnop"}]
+    return {"isa": "X64", "ff": "ELF", "text": text, "externs": [], "edits": edits}
+
+
 def permuted(case, rng):
     """another registration order that keeps the order of requests sharing (block, offset)"""
     edits = list(case.get("edits", []))
+    if len(case.get("symbol_deletions") or []) > 1:
+        return dict(case, symbol_deletions=list(reversed(case["symbol_deletions"])))
     if len(case.get("retargets") or []) > 1:
         # retargets of different symbols: their registration order must not matter either
         rts = list(case["retargets"])
@@ -200,6 +224,10 @@ def run(ctx):
     for _ in range(ctx.budget(6, 60)):
         cases.append(LE.strip_case(three_callers(ctx.rng)))
         cases.append(LE.strip_case(shared_tail(ctx.rng)))
+    for _ in range(ctx.budget(4, 40)):
+        cases.append(LE.strip_case(deleted_twice(ctx.rng)))
+    for _ in range(ctx.budget(12, 120)):
+        cases.append(LE.strip_case(two_aligned(ctx.rng)))
     for k in range(ctx.budget(250, 5000)):
         cases.append(LE.strip_case(vary(emodify.gen_case(ctx.rng), ctx.rng, k)))
     reqs = []
